@@ -162,7 +162,7 @@ fn validate_arearef(arearefstr: &str, orig: &str) -> Option<f32> {
         );
         exit(exitcode::DATAERR);
     });
-    if arearef <= 1e-3 {
+    if arearef.is_nan() || arearef <= 1e-3 {
         eprintln!(
             "ERROR: área de referencia A_ref fuera de rango [0.001-]: {:.2} ({})",
             arearef, orig
